@@ -330,7 +330,7 @@ class TGen:
                 e = self.expr(m)
                 if e is not None:
                     names.append(e)
-            return ("d_cols", tid, tuple(names), rng.choice(["str", "list"]))
+            return ("d_cols", tid, tuple(names), rng.choice(["str", "list", "list", "lowlevel"]))
         if kind == "d_add":
             return ("d_add", tid, rng.randrange(len(self.models)))
         if kind == "d_mul":
